@@ -15,7 +15,7 @@ class Shadow:
     """the generator's own picture of the heap (keeps generated ops valid; not an oracle)"""
     def __init__(self, full):
         self.full = full
-        self.o = {}            # id -> dict(kind, k, root, owner, el[list of tok], key[list], kt, vt: CURRENT key / element types)
+        self.o = {}            # id -> dict(kind, k, root, owner, el[list of tok], key[list], kt, vt: CURRENT key / element types[, raw])
         self.used = set()
         self.roots = ['n'] * NROOTS
         self.tls = {}
@@ -30,6 +30,7 @@ class Shadow:
     def fresh(self):
         i = self.next_id; self.next_id += 1; return i
     def usable(self, i): return i in self.o
+    def israw(self, i): return self.o[i].get('raw', False)      # allocated with new_raw: not registered, not traced, never swept
     def owned(self, i):
         ow = self.o[i]['owner']; return ow is not None and ow in self.o
     def targets(self):
@@ -53,7 +54,7 @@ class Shadow:
         def push(t):
             if t and t[0] == 'o':
                 i = int(t[1:])
-                if i in self.o and i not in seen: seen.add(i); st.append(i)
+                if i in self.o and i not in seen and not self.israw(i): seen.add(i); st.append(i)
         for t in self.tls.values(): push(t)
         for i, o in self.o.items():
             if o['root']: push('o%d' % i)
@@ -85,6 +86,15 @@ class Shadow:
         self.emit(f"new {i} {letter}{'!' if root else ''} {arg} {where}")
         if self.full: self.checkpoint()
         return i
+    def newraw(self, letter, arg='-'):
+        """a container allocated with new_raw (exact mode): the collector does not follow a path through it"""
+        i = self.fresh(); self.used.add(i)
+        kind, kt, vt = LETTER[letter]
+        if kind in ARR and arg != '-': vt = arg
+        if kind in MAPS and arg != '-': kt, vt = arg[0], arg[1]
+        self.o[i] = dict(kind=kind, k=0, root=False, owner=None, el=[], key=[], kt=kt, vt=vt, raw=True)
+        self.emit(f"newraw {i} {letter} {arg} -")
+        return i
     # ---- re-typing ops
     def can_assign(self, d, s):
         if d == s or d not in self.o or s not in self.o: return False
@@ -106,7 +116,7 @@ class Shadow:
         self.emit(f'assign {d} {s}')
     def copy(self, s, slot=None):
         i = self.fresh(); self.used.add(i); os_ = self.o[s]
-        self.o[i] = dict(kind=os_['kind'], k=0, root=False, owner=None, el=list(os_['el']), key=list(os_['key']), kt=os_['kt'], vt=os_['vt'])
+        self.o[i] = dict(kind=os_['kind'], k=0, root=False, owner=None, el=list(os_['el']), key=list(os_['key']), kt=os_['kt'], vt=os_['vt'])   # never raw
         if slot is not None: self.roots[slot] = 'o%d' % i
         self.emit(f"copy {i} {s} {'-' if slot is None else 's%d' % slot}")
         if self.full: self.checkpoint()
@@ -155,7 +165,7 @@ class Shadow:
     def xcollect(self, words):
         live = self.reach(words=words)
         for i in list(self.o):
-            if i not in live: del self.o[i]
+            if i not in live and not self.israw(i): del self.o[i]
         self.emit('xcollect ' + ' '.join(words) if words else 'xcollect')
     def collect(self):
         self.emit('collect'); self.checkpoint()
@@ -234,12 +244,14 @@ def mutate(rng, sh, cands_fn, new_slot_fn):
         if rng.random() < 0.08:
             sh.pair(new_slot_fn()); return
         kind = rng.choice(FOCUS_KINDS if sh.focus else KINDS)
+        if not sh.full and kind in 'ALTUEF' and rng.random() < 0.12:
+            sh.newraw(kind, rand_types(rng, kind, sh.focus)); return
         def mk(kind, slot, root=False):
             return sh.new(kind, arg=str(rng.choice([1, 2, 4, 8])) if kind == 'P' else rand_types(rng, kind, sh.focus), slot=slot, root=root)
         if kind == 'B':
             slot = new_slot_fn()
             t = mk(rng.choice(['P', 'R', 'A', 'H']), slot)
-            c2 = [c for c in cands_fn() if c != t and not sh.owned(c)]
+            c2 = [c for c in cands_fn() if c != t and not sh.owned(c) and not (sh.o[t]['kind'] == 'H' and sh.israw(c))]
             if c2 and sh.o[t]['kind'] in WORDS: sh.store(t, 0, 'o%d' % rng.choice(c2))
             elif c2: sh.push(t, 'o%d' % rng.choice(c2))
             if t in sh.o and t not in sh.ghost and not sh.has_incoming(t, slot): sh.new('B', slot=slot, boxtgt=t)   # full mode: the box takes over the target's slot
@@ -249,6 +261,7 @@ def mutate(rng, sh, cands_fn, new_slot_fn):
     if r < (0.58 if sh.focus else 0.40) and retype(rng, sh, cands, new_slot_fn): return
     i = rng.choice(cands); o = sh.o[i]; k = o['kind']
     tg = [c for c in cands if not sh.owned(c)]
+    if k in 'MH': tg = [c for c in tg if not sh.israw(c)]     # a Mark instance would hand the raw pointer to the callback
     if k in 'PR' : sh.store(i, rng.randrange(o['k']), rand_tok(rng, sh, tg))
     elif k == 'M': sh.store(i, rng.randrange(4), rand_tok(rng, sh, tg, junk=False))
     elif k == 'B': return
@@ -569,12 +582,21 @@ class C01(Spec):
                   'struct member read in them (no early return, loop over all slots / items, no cached flag), the members of the container structs and the functions '
                   'that redefine the element types are regenerated from /repo on every run and the theorems are re-checked against them. The model is tied to the real collector by running generated heap histories on both and comparing '
                   'mark bits and swept sets exactly (real GC_Mark_Item/GC_Recurse/Mark instances/GC_Sweep on chosen root words), and the real GC_Mark (stack scan, '
-                  'threshold-triggered and forced collections) is checked against a shadow-graph oracle: reachable ⊆ survivors, contents intact.')
+                  'threshold-triggered and forced collections) is checked against a shadow-graph oracle: reachable ⊆ survivors, contents intact. '
+                  'The WHOLE collection is modelled: the mark bits are part of the state of a history (C01_mark_exact_from / C01_sweep_exact_from: a mark phase that '
+                  'starts from bits that are already set marks exactly those and what is reachable through unmarked entries), and the release loop of GC_Sweep with '
+                  'Box_Del -> del -> GC_Rem_Ptr is modelled (C01_release_within_pending, C01_release_bounded). C01_collect_safe_partial / C01_history_safe_partial '
+                  'prove "not put on the pending list, not finalised, contents unchanged" under two explicit decidable hypotheses: no mark bit is set when a '
+                  'collection begins (holds when GC_Mark clears the bits first, or when no exception leaves a mark phase; refuted without: known finding '
+                  'KF-C01-stale-marks, C01_stale_marks_refuted) and no freed entry owns a surviving one (Box ownership contract, an exclusion; C01_box_contract '
+                  'derives it from "no reachable object is owned by an unreachable Box"; refuted without: C01_collect_safe_box_refuted).')
     level_note = ('Trusted: Lean kernel; axioms propext/Quot.sound/Classical.choice at most; translate/g_gcmark.py (regex over GC.c and the Mark instances); the '
                   'harness/driver comparison (testing); the registry lookup inside GC_Mark_Item is abstracted as a finite map (its correctness is C17). '
                   'Not covered: recursion depth of the C marker (known finding F27: chains of about 10^5 links overflow the C stack), dangling pointers in '
-                  'Tuples after an explicit del (known finding KF-C01-dangling-tuple-item), other threads (C13), '
-                  'objects unregistered by hand, Box targets referenced from elsewhere (ownership misuse).')
+                  'Tuples after an explicit del (known finding KF-C01-dangling-tuple-item), mark bits left set by a mark phase that an exception left '
+                  '(known finding KF-C01-stale-marks: the model has them, the safety theorems assume them away for the unrepaired code), other threads (C13), '
+                  'paths through objects that are not registered (new_raw / unregistered by hand: the chain must consist of registered objects), '
+                  'Box targets referenced from elsewhere (Box ownership contract: explicit hypothesis boxExclusive of the _partial theorems).')
     rule = ('heap-graph histories over 11 object kinds (plain structs of 1-8 words, a probe with its own Mark instance, Ref, Box, Array/List of Ref, Table '
             'Int->Ref and Ref->Ref, Tree Int->Ref and Ref->Ref, heap Tuple) plus Array/List of Int/String/Float and Table/Tree with key type Ref/Int/String and value '
             'type Ref/Int/String/Float; re-typing ops: assign between Array/List (and from a heap Tuple), between Table/Tree, between Tuples (the target takes over the '
@@ -583,7 +605,8 @@ class C01(Spec):
             'words), container push/pop/set/remove crossing grow/shrink/rehash, TLS entries, root-registered holders, stack-slot roots, explicit del, and '
             'collections; exact mode: real mark functions on a chosen root-word list + real GC_Sweep, mark bits and swept set compared with the model; full mode: '
             'real GC_Mark/GC_Sweep triggered by allocation thresholds and forced. Targeted shapes: cycles through all kinds, self references, tuple cycles, '
-            'TLS-only reachability, sharing through each representation, growth/shrink/rehash, box ownership, chains up to the cap, the matrix leaf-typed target x '
+            'TLS-only reachability, sharing through each representation, growth/shrink/rehash, box ownership, containers allocated with new_raw in the middle of a path '
+            '(not traced), chains up to the cap, the matrix leaf-typed target x '
             'reference-bearing source for sequences and maps (direct and via copy+clear), growth after re-typing. '
             'non-trivial item = a collection that marked at least 2 objects and swept at least 1 (exact mode) or a forced collection with at least 2 live '
             'objects (full mode); distinct = distinct op-file prefix up to that collection.')
@@ -591,10 +614,24 @@ class C01(Spec):
                     'the content of a container after assign / copy (element values, types) is checked by the harness against its shadow, not proved (C04/C10 cover assign)',
                     'harness/h_gcmark.c + lean/Driver/GcMark.lean + lean/Cello/HeapOps.lean (correspondence is testing)',
                     'the registry probe inside GC_Mark_Item / GC_Sweep is modelled as a finite map (C17 covers the registry)',
-                    'exact mode replicates the 8-line root loop of GC_Mark in the harness (the real loop runs in full mode)')
+                    'exact mode replicates the 8-line root loop of GC_Mark in the harness (the real loop runs in full mode); whether the replica clears the mark bits '
+                    'first follows the source through -DC01_MARK_CLEARS_FIRST (vlib/props/c01.py: mark_clears_first, same reading as the translator)',
+                    'register spill: every callee-saved register that holds a live pointer at the time of a collection is written, unmangled, into the scanned stack range '
+                    'by setjmp(env) in GC_Mark or by a frame between the mutator and GC_Mark_Stack (glibc x86-64 setjmp stores rbx, r12-r15 plain but rbp, rsp and the return '
+                    'address pointer-mangled; with -fomit-frame-pointer rbp is an ordinary callee-saved register): the model takes `stack : List Word` as given; full mode tests '
+                    'stack slots and a pointer held in a local of the allocating function (pair), not register-only pointers',
+                    'the marking order of the worklist model is the order of the C recursion (C01_rec_agrees gives equal results; the prefix property used for GOp.raise '
+                    '(an exception leaves the mark phase after k marking events) is checked by the xraise corpus cases, not proved)')
     assumptions = ('single collector thread; registry counts below 2^63',
                    'chains of at most 20 000 links in generated cases: the C marker recurses once per link (known finding F27, witness corpus/kf_c01_deep_chain.ops)',
-                   'an object owned by a Box is referenced only by that Box (Box_Del deletes its target)',
+                   'Box ownership contract: an object owned by a Box is referenced only by that Box (Box_Del deletes its target: GC_Rem_Ptr finalises it even when it is '
+                   'registered and reachable) — hypothesis `boxExclusive` of C01_collect_safe_partial / C01_history_safe_partial, witness corpus/gcmark_box_shared_target.ops '
+                   '(harness reports `I excluded`), generated cases never share a Box target',
+                   'the chain consists of REGISTERED objects: a pointer to an object allocated with new_raw (or unregistered by hand) that is found on the stack, in a Ref, in a '
+                   'plain struct or in a container element is ignored by GC_Mark_Item, so a path through it is not followed (Points / Reachable read the registry); only the Mark '
+                   'instance of a registered Tuple / user type would hand such a pointer to the callback, which is not generated (witness corpus/gcmark_raw_container.ops)',
+                   'no exception leaves a mark phase (Mark instances do not throw; no dangling Tuple items): otherwise the mark bits set so far survive and the next collection '
+                   'starts from them (known finding KF-C01-stale-marks, witness corpus/kf_c01_stale_marks.ops; hypothesis `GOp.completes` of C01_history_safe_partial)',
                    'heap Tuples and user Mark instances hand only non-NULL pointers to registered objects; explicit del only of objects that nothing usable points to '
                    'and that no Tuple / user Mark instance which has become garbage (and may not have been swept yet) pointed to: otherwise the next collection '
                    'reads freed memory (known finding KF-C01-dangling-tuple-item, witness corpus/kf_c01_dangling_tuple.ops)',
